@@ -47,6 +47,12 @@ mod verif_witness_c11 {
         use inkayaku_uci::Score;
         let h = SimpleHeuristic {};
         let mut bad = 0;
+        // the relations the mate scores rest on, on whatever values the code returns
+        let (win, loss, draw, fmax) = (h.win_score() as i64, h.loss_score() as i64, h.draw_score() as i64, SimpleHeuristic::MAX_FULL_MOVES as i64);
+        if !(loss == -win && win > 0 && draw.abs() < win / 4 && fmax > 0 && win / 2 > 2 * fmax && win < (1i64 << 30)) {
+            println!("FAILING-INPUT: score constants win={} loss={} draw={} MAX_FULL_MOVES={}: a mate score cannot be told from a material value or from the opposite mate", win, loss, draw, fmax);
+            bad += 1;
+        }
         for white_to_move in [true, false] {
             for f0 in [1i32, 37, 500] {
                 let fen = format!("4k3/8/8/8/8/8/8/4K2R {} - - 0 {}", if white_to_move { "w" } else { "b" }, f0);
